@@ -5,6 +5,7 @@ Part P: ordering rulebooks O of a grammar (<= 3 sibling rules with pairwise disj
         real make_diff/make_pre/make_patch: for sibling commands c1,c2 of the sorted patch ref_rank(c1) < ref_rank(c2)
         => c1 first; removal before re-creation of one (rule,key); multiset of paths equals that of the patch made
         with an empty ordering rulebook (children therefore stay in their parent).
+Part N: the same with a patching head that merely begins with the vendor's negation word (node / undoer).
 Part L: shipped .order files: for every sample of the shipped patch corpus, deleting one top-level row that is
         identical in old and new leaves the command list unchanged.
 Part C: Orderer.from_hw(hw).order_config(t) for all vendors x forests over rows drawn from that vendor's .order
@@ -136,12 +137,13 @@ _cache = {}
 _base_cache = {}
 
 
-def patch_for(vendor, otxt, old, new):
+def patch_for(vendor, otxt, old, new, rules=None):
     from annet import api
     from annet.rulebook.patching import compile_patching_text
     from annet.annlib.rbparser.ordering import compile_ordering_text
     from annet.rulebook.deploying import compile_deploying_text
-    rules = _cache.setdefault("rules", patching_rules())
+    if rules is None:
+        rules = _cache.setdefault("rules", patching_rules())
     rbk = {"patching": compile_patching_text(refrb.text(rules), vendor), "ordering": compile_ordering_text(otxt, vendor),
            "deploying": compile_deploying_text("", vendor)}
     diff, patch = api._diff_and_patch(env.device(vendor), env.to_odict(old), env.to_odict(new), None, None, False, rb=rbk)
@@ -177,18 +179,28 @@ def check_sorted(pt, orules, oglobals, prefix, probs, path=()):
     return ranks
 
 
-def judge_p(vendor, orules, old, new, report):
+def prefix_word_rules(prefix):
+    """part N: a patching rulebook with a head that merely BEGINS with the vendor's negation word ('node' for 'no',
+    'undoer' for 'undo') and ordering rulebooks that rank it"""
+    w = {"no": "node", "undo": "undoer"}[prefix]
+    rules = [Rule(w + " *"), Rule("b *"), Rule("c *")]
+    orders = [[ORule("b"), ORule(w), ORule("c")], [ORule("c"), ORule("b"), ORule(w)], [ORule(w), ORule("c")],
+              [ORule("c"), ORule("%s %s" % (prefix, w), order_reverse=True), ORule("b")], [ORule("b"), ORule(w + " 1"), ORule(w + " 2")]]
+    return rules, orders
+
+
+def judge_p(vendor, orules, old, new, report, rules=None):
     prefix = VENDOR_PREFIX[vendor]
     otxt = otext(orules)
-    case = {"part": "P", "vendor": vendor, "ordering": [r.to_json() for r in orules], "old": old, "new": new}
+    case = {"part": "P" if rules is None else "N", "vendor": vendor, "ordering": [r.to_json() for r in orules], "old": old, "new": new}
     try:
-        pt = patch_for(vendor, otxt, old, new)
-        bk = (vendor, repr(old), repr(new))
+        pt = patch_for(vendor, otxt, old, new, rules)
+        bk = (vendor, rules is None, repr(old), repr(new))
         base_paths = _base_cache.get(bk)
         if base_paths is None:
             if len(_base_cache) > 20000:
                 _base_cache.clear()
-            base_paths = _base_cache[bk] = sorted(flat_paths(patch_for(vendor, "", old, new)))
+            base_paths = _base_cache[bk] = sorted(flat_paths(patch_for(vendor, "", old, new, rules)))
     except Exception as e:  # noqa
         report({"kind": "exception", "part": "P", "exc": type(e).__name__}, case, repr(e)[:300])
         return 0
@@ -196,7 +208,7 @@ def judge_p(vendor, orules, old, new, report):
     ranks = check_sorted(pt, [r for r in orules], [r for r in orules if r.glob], prefix, probs)
     probs.sort(key=lambda p: p[3] != "other")      # report the unclassified ones first
     for kind, path, detail, shape in probs[:2]:
-        report({"kind": kind, "part": "P", "shape": shape}, case,
+        report({"kind": kind, "part": case["part"], "shape": shape}, case,
                "ordering=%r at %r: %s | patch=%r" % (otxt, path, detail, flat_paths(pt)))
     a, b = sorted(flat_paths(pt)), base_paths
     if a != b:
@@ -211,6 +223,26 @@ def judge_p(vendor, orules, old, new, report):
                 report({"kind": "recreation-before-removal", "part": "P"}, case, "patch=%r" % rows)
     distinct = len({rk for rk, _ in ranks if rk is not None})
     return distinct
+
+
+def run_n(block, ctx):
+    from checks.c01_converge import pick_universe
+    vendor = block["vendor"]
+    rules, orders = prefix_word_rules(VENDOR_PREFIX[vendor])
+    _cache["rulesN:" + vendor] = rules
+    U, _ = pick_universe(refrb.top_level(rules), 40)
+    orules = orders[block["i"]]
+    for old in U:
+        if ctx.expired():
+            return
+        for new in U:
+            d = judge_p(vendor, orules, old, new, ctx.violation, rules)
+            ctx.evals += 2
+            ctx.states += 1
+            if d >= 2:
+                ctx.nontrivial += 1
+            ctx.outcomes["N:distinct-ranks=%s" % (d if d < 3 else "3+")] += 1
+    ctx.sample({"part": "N", "ordering": otext(orules), "patching": refrb.text(rules), "universe": len(U)})
 
 
 def run_p(block, ctx):
@@ -365,6 +397,9 @@ def blocks(tier, seed):
     for v in VENDOR_PREFIX:
         for off in range(0, ng, step):
             out.append({"part": "P", "vendor": v, "from": off, "to": off + step})
+    for v in VENDOR_PREFIX:
+        for i in range(5):
+            out.append({"part": "N", "vendor": v, "i": i})
     for i in range(16):
         out.append({"part": "L", "i": i, "of": 16})
     for v in env.ALL_VENDORS:
@@ -373,7 +408,7 @@ def blocks(tier, seed):
 
 
 def run_block(block, ctx):
-    {"P": run_p, "L": run_l, "C": run_c}[block["part"]](block, ctx)
+    {"P": run_p, "N": run_n, "L": run_l, "C": run_c}[block["part"]](block, ctx)
 
 
 def replay(case):
@@ -383,6 +418,9 @@ def replay(case):
         out.append((sig, d))
     if case["part"] == "P":
         judge_p(case["vendor"], [ORule.from_json(d) for d in case["ordering"]], case["old"], case["new"], rep)
+    elif case["part"] == "N":
+        judge_p(case["vendor"], [ORule.from_json(d) for d in case["ordering"]], case["old"], case["new"], rep,
+                prefix_word_rules(VENDOR_PREFIX[case["vendor"]])[0])
     elif case["part"] == "C":
         judge_c(case["vendor"], case["forest"], rep)
     else:
